@@ -118,7 +118,9 @@ def run_legacy(spec):
             w.s3.objects[(BUCKET, x.key)] = x.data
             path = dest_path(obs.tmpdir, x)
             labels[path] = x.label
-            if t.get('preexisting'):
+            if t.get('dst_is_dir'):
+                scenario.make_dir_destination(path)
+            elif t.get('preexisting'):
                 x.prev = b'previous-content-' + str(x.idx).encode()
                 with open(path, 'wb') as f:
                     f.write(x.prev)
@@ -301,7 +303,9 @@ def run_procpool(spec):
             w.s3.objects[(BUCKET, x.key)] = x.data
             path = dest_path(obs.tmpdir, x)
             labels[path] = x.label
-            if t.get('preexisting'):
+            if t.get('dst_is_dir'):
+                scenario.make_dir_destination(path)
+            elif t.get('preexisting'):
                 x.prev = b'previous-content-' + str(x.idx).encode()
                 with open(path, 'wb') as f:
                     f.write(x.prev)
@@ -445,7 +449,9 @@ def run_procpool_full(spec):
             w.s3.objects[(BUCKET, x.key)] = x.data
             path = dest_path(obs.tmpdir, x)
             labels[path] = x.label
-            if t.get('preexisting'):
+            if t.get('dst_is_dir'):
+                scenario.make_dir_destination(path)
+            elif t.get('preexisting'):
                 x.prev = b'previous-content-' + str(x.idx).encode()
                 with open(path, 'wb') as f:
                     f.write(x.prev)
